@@ -24,6 +24,7 @@ XTCE = b"""<?xml version='1.0' encoding='UTF-8'?>
 APIDS = [5, 1030, 77]
 W_NOSTART = "Continuation packet found without declaring the star"
 W_GAP = "Continuation packets for apid"
+W_LEN = "Number of bits parsed"
 
 META = {
     "level": "model_checking",
@@ -77,6 +78,7 @@ def reference(ctx, pk, s):
         f = p["flags"]
         if ctx.fork(f == 3):                         # UNSEGMENTED: alone, state untouched
             outputs.append(list(p["raw"]))
+            warns.append("len")                      # (the check's definition consumes no bits: every output carries the length warning)
             continue
         a = ctx.pick(z3.BV2Int(p["apid"]))
         if ctx.fork(f == 1):                         # FIRST: opens (discarding an unfinished group)
@@ -98,9 +100,19 @@ def reference(ctx, pk, s):
                 for y in group[1:]:
                     out += pk[y]["raw"][6 + s:]
                 outputs.append(out)
+                warns.append("len")
             else:
                 warns.append("gap")
     return outputs, warns
+
+
+def kind_of(message):
+    return "nostart" if message.startswith(W_NOSTART) else "gap" if message.startswith(W_GAP) else "len" if message.startswith(W_LEN) else "?"
+
+
+def same_warnings(got, want):
+    """one warning per dropped group / orphan, in order; the kind is compared only when the text is one of the two known wordings"""
+    return len(got) == len(want) and all(g == w or g == "?" for g, w in zip(got, want))
 
 
 class Segments(Harness):
@@ -136,8 +148,9 @@ class Segments(Harness):
             w, ww = reference(ctx, ppk, s)
             want += w
             want_warn += ww
-        got_warn = [("nostart" if m.startswith(W_NOSTART) else "gap") for (_, m) in ctx.warnings if m.startswith(W_NOSTART) or m.startswith(W_GAP)]
-        obl = [("no exception", end == "stop"), ("number of outputs", len(out) == len(want)), ("warnings", got_warn == want_warn)]
+        # the wording of the two warnings is not part of the property: a warning with another text counts as one warning of unknown kind
+        got_warn = [kind_of(m) for (cat, m) in ctx.warnings if "Deprecat" not in cat]
+        obl = [("no exception", end == "stop"), ("number of outputs", len(out) == len(want)), ("warnings", same_warnings(got_warn, want_warn))]
         got_items = []
         for i, (g, w) in enumerate(zip(out, want)):
             gi = g.raw_data.items if hasattr(g, "raw_data") else None
@@ -148,7 +161,7 @@ class Segments(Harness):
             obl.append((f"output {i} bytes", z3.And([bv.byte_term(x) == bv.byte_term(y) for x, y in zip(gi, w)] + [z3.BoolVal(True)])))
         observe = {"outputs": [bv.SymBytes(g.raw_data.items) for g in out if hasattr(g, "raw_data")], "warnings": got_warn, "end": end, "cls": "ran"}
         spec = {"outputs": [bv.SymBytes(w) for w in want], "warnings": want_warn, "end": "stop"}
-        return result(f"{len(want)}out/{len(want_warn)}warn", obl, observe=observe, spec=spec, inputs={"stream": stream, "s": s, "K": K, "cut": None if cut is None else pk[cut]["start"], "skip": skip})
+        return result(f"{len(want)}out/{len([w for w in want_warn if w != 'len'])}warn", obl, observe=observe, spec=spec, inputs={"stream": stream, "s": s, "K": K, "cut": None if cut is None else pk[cut]["start"], "skip": skip})
 
 
 class Twin(Segments):
@@ -209,10 +222,9 @@ def concrete(req):
     ws = []
     for w in rec:
         m = str(w.message)
-        if m.startswith(W_NOSTART):
-            ws.append("nostart")
-        elif m.startswith(W_GAP):
-            ws.append("gap")
+        if "Deprecat" in w.category.__name__:
+            continue
+        ws.append(kind_of(m))
     return {"cls": "ran", "outputs": outs, "warnings": ws, "end": end}
 
 
@@ -238,6 +250,7 @@ def judge(req, got):
         flags, seq = p[2] >> 6, ((p[2] & 0x3F) << 8) | p[3]
         if flags == 3:
             outs.append(p)
+            warns.append("len")
         elif flags == 1:
             state[apid] = [p]
         elif apid not in state:
@@ -249,6 +262,7 @@ def judge(req, got):
             seqs = [((x[2] & 0x3F) << 8) | x[3] for x in g]
             if all((b - a) % 16384 == 1 for a, b in zip(seqs, seqs[1:])):
                 outs.append(g[0] + b"".join(x[6 + s:] for x in g[1:]))
+                warns.append("len")
             else:
                 warns.append("gap")
     want = [{"hex": x.hex()} for x in outs]
@@ -256,7 +270,7 @@ def judge(req, got):
         return "reproduced", f"stream {stream.hex()} skip_header_bytes={skip} s={s}{'' if cut is None else f' fed as two sources cut at byte {cut}'}: generator ended with {got['end']}"
     if got["outputs"] != want:
         return "reproduced", f"stream {stream.hex()} skip_header_bytes={skip} s={s}{'' if cut is None else f' fed as two sources cut at byte {cut}'}: expected outputs {[x['hex'] for x in want]}, got {[x['hex'] for x in got['outputs']]}"
-    if got["warnings"] != warns:
+    if not same_warnings(got["warnings"], warns):
         return "reproduced", f"stream {stream.hex()} skip_header_bytes={skip} s={s}{'' if cut is None else f' fed as two sources cut at byte {cut}'}: expected warnings {warns}, got {got['warnings']}"
     return "not-reproduced", "agrees with the reference state machine"
 
